@@ -16,7 +16,7 @@ RULE = (
     "harnesses H1 own runtimes, H2 shared runtime object (one thread nested in its own outer runtime), H3 inherit() "
     "racing with the parent's enter/exit, H4 concurrent register (2 writers + 1 reader; also 3 writers), H5 two "
     "evaluations of one cached dataset (different / equal dictionaries), H6 late default registration vs. a new "
-    "thread's first request; all schedules with at most B preemptions: quick B=2 at line granularity and B=1 at "
+    "thread's first request, and a sequential three-generation inherit scenario (parent finished, unrelated threads in between); all schedules with at most B preemptions: quick B=2 at line granularity and B=1 at "
     "bytecode granularity, thorough B=3 line / B=2 bytecode.  An execution is non-trivial when it contains at least "
     "one preemption; distinct_nontrivial counts distinct preempting schedules."
 )
@@ -41,6 +41,24 @@ def _targets(gran, group):
     return dict(line_files=files)
 
 
+class _ThreadingProxy:
+    """Stands in for the ``threading`` module inside a labrea module: every lock the library creates
+    while a harness runs is a scheduler-aware lock (a real one would block the thread holding the baton)."""
+
+    def __init__(self, sched, real, point):
+        self.__dict__["_sched"] = sched
+        self.__dict__["_real"] = real
+        self.__dict__["_point"] = point
+
+    def Lock(self):
+        return self._sched.lock("library-created lock", point=self._point)
+
+    RLock = Lock
+
+    def __getattr__(self, name):
+        return getattr(self._real, name)
+
+
 class Env:
     """Fresh objects for one execution."""
 
@@ -56,6 +74,15 @@ class Env:
         # that acquisition a scheduling point, the others would drown in them
         rt.lock = sched.lock("runtime.lock", point=(group == "runtime"))
         lo._MODULE_LOCK = sched.lock("overload._MODULE_LOCK", point=(group == "overload"))
+        import labrea.cache as lc
+
+        self.saved_threading = {}
+        for m, grp in ((lo, "overload"), (rt, "runtime"), (lc, "cache")):
+            if hasattr(m, "threading"):
+                self.saved_threading[m] = m.threading
+                m.threading = _ThreadingProxy(sched, m.threading, point=(group == grp))
+        self.saved_locks = dict(lo._LOCKS)
+        lo._LOCKS.clear()
 
         class T(rt.Request):
             def __init__(self):
@@ -88,6 +115,10 @@ class Env:
         rt = self.rt
         rt.lock = self.saved_lock
         lo._MODULE_LOCK = self.saved_modlock
+        for m, real in self.saved_threading.items():
+            m.threading = real
+        lo._LOCKS.clear()
+        lo._LOCKS.update(self.saved_locks)
         for t in self.sched.threads:
             rt._RUNTIMES.pop(t["thread"], None)
         rt._DEFAULT_HANDLERS.pop(self.T, None)
@@ -324,6 +355,7 @@ HARNESSES = {
     "H2-shared-runtime-object": (h2, "runtime"),
     "H3-inherit-vs-parent": (h3, "runtime"),
     "H4-register-2w+reader": (lambda env: h4(env, 2, True), "overload"),
+    "H4-register-2w": (lambda env: h4(env, 2, False), "overload"),
     "H4-register-3w": (lambda env: h4(env, 3, False), "overload"),
     "H4-overload-list-vs-register": (h4_overload, "overload"),
     "H5-cached-different": (lambda env: h5(env, False), "cache"),
@@ -379,10 +411,12 @@ def _plan(tier):
 
 
 def cases(tier, seed):
-    out = []
+    out = [("sequential",)]
     _warm()
     for hname in HARNESSES:
         for gran, bound in _plan(tier):
+            if gran == "opcode" and hname == "H4-register-2w":
+                bound = max(bound, 2)  # the shortest harness: two preemptions at bytecode level on every run
             # root execution gives the first-level alternatives; each is a complete sub-tree
             points, choices, fails = run_once(hname, gran, [])
             out.append(("root", hname, gran))
@@ -395,8 +429,79 @@ def cases(tier, seed):
     return out
 
 
+def sequential_scenarios():
+    """Thread life-time sequences (no interleaving involved): what a thread inherits or is served by
+    does not depend on other threads having finished, or on requests made by unrelated threads."""
+    import labrea.runtime as rt
+
+    fails = []
+
+    class T(rt.Request):
+        def __init__(self):
+            self.options = {}
+
+    def tag(t):
+        return lambda request: t
+
+    rt.handle_by_default(T, tag("default"))
+    seen = {}
+    threads = []
+
+    def run(fn):
+        th = threading.Thread(target=fn)
+        threads.append(th)
+        th.start()
+        th.join(10)
+        return th
+
+    main_rt = rt.current_runtime().handle(T, tag("outer"))
+    holder = {}
+
+    def coordinator():
+        rt.inherit(holder["main"])
+        seen["coordinator"] = T().run()
+
+    def unrelated():
+        seen["unrelated"] = T().run()
+
+    def worker(name):
+        def f():
+            rt.inherit(holder["coord"])
+            seen[name] = T().run()
+
+        return f
+
+    def main_like():
+        with main_rt:
+            holder["main"] = threading.current_thread()
+            holder["coord"] = run(coordinator)  # three generations: main -> coordinator (finished) -> workers
+            run(worker("w1"))
+            run(unrelated)  # a thread that inherits nothing makes its first request
+            run(worker("w2"))
+            run(worker("w3"))
+
+    run(main_like)
+    want = {"coordinator": "outer", "w1": "outer", "unrelated": "default", "w2": "outer", "w3": "outer"}
+    if seen != want:
+        fails.append(f"inherit from a finished parent: observed {seen}, expected {want}")
+    with rt.lock:
+        for th in threads:
+            rt._RUNTIMES.pop(th, None)
+        for k in [k for k in list(rt._RUNTIMES) if not isinstance(k, threading.Thread)]:
+            rt._RUNTIMES.pop(k, None)
+        rt._DEFAULT_HANDLERS.pop(T, None)
+    return fails
+
+
 def run_case(case):
     res = {"failures": [], "executions": 0, "points": 0, "preempting": 0, "outcomes": 0, "samples": [], "max_points": 0}
+    if case[0] == "sequential":
+        for rep in range(20):
+            for f in sequential_scenarios():
+                if not res["failures"]:
+                    res["failures"].append({"sig": "C15|sequential|inherit-from-finished-parent", "what": f"thread life-time scenario: {f[:300]}", "detail": "deterministic: threads run one after the other with join()", "case": ("sequential",)})
+            res["executions"] += 1
+        return res
     _warm()
     if case[0] == "replay":
         _, hname, gran, prefix = case
